@@ -38,6 +38,66 @@ TEXT = {
   "ref": "DESIGN.md section 4, C18",
  },
 
+ "C01": {
+  "technique": "property-based testing (rapid) of hostile datagram sequences against a live node with operations in flight, plus native coverage-guided fuzzing of a byte-level datagram target in the thorough tier; crash triage by write-ahead journal and cross-process delta debugging; liveness by a goroutine-state deadlock detector and a probe ping",
+  "level": "Generated sequences of raw, malformed-bencode, mutated-valid and wrongly typed KRPC datagrams and adversarial replies (every response field independently absent / valid / malformed) to the node's own live queries, across configurations (peer store, BEP 42 enforcement, passive, query hook, socket kind) and in-flight operations (ping, bootstrap, announce variants, BEP 44 get/put). Shows absence of crash, wedge and silence on everything generated.",
+  "note": "Which of the operation's queries are live when a hostile reply is built depends on timing (25 ms real waits), so the exact sequence of a failing case may not replay identically; the journal keeps the concrete case. Process death is detected by the driver from the Go trace and counted only when the panicking frames are in the module under test.",
+  "ref": "DESIGN.md section 4, C01",
+ },
+ "C05": {
+  "technique": "property-based testing (rapid), stateful: generated histories of table events with IDs crafted to collide in chosen buckets; structural invariants and API agreement checked after every step against an independent bit-scan / BEP 5 classification",
+  "level": "Generated histories (inbound queries, answered / unanswered / mismatched pings and find_nodes, unsolicited responses, AddNode, ageing, questionable pings, a TableMaintainer pass) over peers crafted to fill and overflow 1-2 buckets; the invariants are evaluated on a snapshot of the real table after every step.",
+  "note": "Uses the VerifTable / VerifAge / VerifQuestionablePing hooks; ageing shifts the stored timestamps by whole minutes, which is observationally the same as waiting. Held on every generated history only.",
+  "ref": "DESIGN.md section 4, C05",
+ },
+ "C06": {
+  "technique": "property-based testing (rapid), stateful: the same table histories (with blocklists, read-only senders, BEP 42 secure/insecure IDs, bucket floods), each step judged by transition rules between the table snapshots before and after it, derived from the harness's own record of delivered datagrams",
+  "level": "Every admission and every eviction in every generated step is justified or reported: admission only for an eligible direct sender / matched responder / AddNode argument, eviction only of bad or never-answered-while-a-responder-arrives entries and never of a good one, admission complete when the bucket has room, liveness evidence changed only by messages from that contact.",
+  "note": "During the TableMaintainer pass several events fall into one step: completeness and per-event attribution are relaxed there, the justification rules are not.",
+  "ref": "DESIGN.md section 4, C06",
+ },
+ "C07": {
+  "technique": "property-based testing (rapid) with a harness-owned schedule: outbound queries (some with their send parked inside the socket write) interleaved with marked near-miss and matching datagrams, cancellations and releases; a reference model decides after every event which queries must have returned and with which datagram",
+  "level": "Generated sets of concurrently outstanding queries to colliding destinations (same IP other port, same port other IP, IPv4 / v4-mapped / IPv6) and streams of correct, wrong-address, adjacent-transaction-ID, duplicated and replayed datagrams; a quiescence barrier after every event makes the comparison with the model exact.",
+  "note": "All queries run with a one-hour virtual resend delay so that no time-out races the stream; time-out behaviour is C14's.",
+  "ref": "DESIGN.md section 4, C07",
+ },
+ "C09": {
+  "technique": "property-based testing (rapid), stateful: generated tables mixing good / questionable / bad, IPv4 / IPv6 entries, probed with find_node / get_peers / get for crafted targets and every want list; each reply judged against the table snapshot, an independent BEP 5 classification and the harness's record of who answered",
+  "level": "Soundness (only good, answered, family-matching, distinct, <= 8 contacts, never the responder) and the bucket-order / completeness clauses are checked on every probe reply (each probe repeated 4 times because the choice within the last bucket depends on map iteration).",
+  "note": "The method's other ID field is set to a different value in half the probes so that using the wrong field is visible; completeness for get_peers applies because no peer store is configured in these histories.",
+  "ref": "DESIGN.md section 4, C09",
+ },
+ "C12": {
+  "technique": "property-based testing (rapid): put/get histories with items drawn around the size limits and signatures valid for a different field tuple, judged by an independent ed25519 + canonical-buffer implementation; client-side getput.Get against simulated nodes with genuine / forged / incomplete replies",
+  "level": "Acceptance <=> validity, applicable error codes, untouched store on rejection, and re-verification of everything served, through the wire, the store wrapper and Server.Put; on the client side the returned value must verify for the requested target and carry the highest seq among the verifying replies delivered.",
+  "note": "Sequence numbers increase along each history so that C13's rules never interfere; immutable puts carry seq 0.",
+  "ref": "DESIGN.md section 4, C12",
+ },
+ "C14": {
+  "technique": "fault-placement enumeration plus property-based sampling (rapid): the complete grid operation x fault x position is enumerated with exact (not timed) placements at the socket-write and resend-delay callbacks; random cells and fault combinations are drawn on top; cleanup judged by pending-transaction count and a goroutine census",
+  "level": "Every cell of the grid {Query NumTries 1..4, Ping} x {reply in send i, reply in final wait, reply after time-out, cancel in send i / wait i / final wait, write error on send i, Close in wait i, after Close} and {Bootstrap, Announce, getput.Get, getput.Put, TableMaintainer pass} x {none, no starting nodes, resolver error, silence, write error / Close / cancel at the k-th write, after Close} is executed (repeated on one server); timing inside a placement is the Go scheduler's.",
+  "note": "Time-outs are virtual (resend-delay callback returns 0 or one hour); in the Close cells answered queries wait 40 ms of real time because a reply queued before Close is never read.",
+  "ref": "DESIGN.md section 4, C14",
+ },
+ "C16": {
+  "technique": "property-based testing (rapid): Announce / AnnounceTraversal over generated simulated networks (distinct / empty / missing / non-string tokens, lying IDs, values, errors, silence) with Close / StopTraversing injected at generated points; every announce_peer on the wire and every delivery on the peers channel judged against the harness's own record",
+  "level": "Token, infohash and port fidelity of every announce_peer, membership of its destination among the 8 closest token-bearing responders, exactly-once delivery of get_peers responses (at-most-once when a stop raced them), channel closure and Finished() after the last exchange.",
+  "note": "Replies are delivered synchronously with the query, so reply order follows query order except for the injected stop; arbitrary completion orders of the underlying lookup are explored by C02-C04.",
+  "ref": "DESIGN.md section 4, C16",
+ },
+ "C19": {
+  "technique": "property-based testing (rapid): histories over every inbound and outbound path with generated blocklists (single addresses, spans, /24s, an IPv6 /64; harness ranger and the library's own list) installed at construction or at generated quiescent points, including while a query to the newly blocked address is outstanding; all writes judged against the list in force",
+  "level": "No datagram to a covered address, no effect of a datagram from one (no write, table change, stored data, callback or completed query), no reply from a passive node and ro=1 on exactly the passive node's queries, over inbound queries / responses / errors, direct API queries, four kinds of traversal, AddNode + questionable pings and a TableMaintainer pass.",
+  "note": "Lists change only when the node is quiescent, so 'the list in force when the write began' is well defined.",
+  "ref": "DESIGN.md section 4, C19",
+ },
+ "C20": {
+  "technique": "property-based testing (rapid): generated limiter settings, spoofed-source floods and concurrent outbound queries with every rate-limiting policy and failing socket writes; the send budget is checked with a prefix bound that real-time scheduling delay cannot falsify",
+  "level": "For every generated run: the k-th rated datagram is written no earlier than burst + rate x elapsed allows; with a non-refilling limiter at most `burst` rated datagrams ever; no query exceeds NumTries; all calls return.",
+  "note": "Uses real time (the limiter is golang.org/x/time/rate); only the one-sided prefix inequality is asserted. Sliding windows are deliberately not used.",
+  "ref": "DESIGN.md section 4, C20",
+ },
  "C10": {
   "technique": "property-based testing (rapid) of issue/use histories over a harness-controlled token clock; write tokens mutated bit-by-bit, truncated, extended, from another IP or another server; oracle is an independent acceptance window model (<=10 min must, >15 min must not)",
   "level": "Generated histories of token issue (genuine get/get_peers), clock advances on and around the 5-minute rotation grid (+-1 ns at the 10- and 15-minute bounds) and announce_peer/put uses from the same or other IPs and ports; replies and side effects (announce callback, AddPeer, store Put) are observed at the socket seam and through recording stores.",
